@@ -37,7 +37,9 @@ def main(path):
     t = Tally(prop)
     ctx = mod.Ctx(t, rp["params"])
     t.cur = rp
-    ctx.edge(rp["edge"])
+    from .s2c import safe_edge
+
+    safe_edge(ctx, t, rp["module"], rp["edge"])
     ctx.close()
     failed = sorted({v.clause for v in t.violations})
     print(f"replayed property={prop} original_clause={clause} clauses_failing_now={failed or 'none'} drift={t.drift}")
